@@ -1,6 +1,7 @@
 import Copia.Driver.Util
 import Copia.Driver.C19
 import Copia.Model.OneWay
+import Copia.Model.Quote
 namespace Copia.Driver.C04
 open Copia.OneWay Copia.Plan Copia.Driver
 
@@ -27,6 +28,14 @@ def handle : List String → Option String
     let exl := ex.map (·.toList)
     let r := oneWay pathLe (fun (p : String) => isExcluded p.toList exl) (del = "1") S D
     some s!"dest={showTree r.dest} T:{C19.showPaths r.plan.transfer}|S:{r.plan.skipped}|D:{C19.showPaths r.plan.delete} ran={if r.ranPlan then 1 else 0}"
+  | ["escape", x] => do
+    let x ← unhexStr x
+    some (hexStr (String.ofList (Copia.Quote.escape x.toList)))
+  | ["ansic", x] => do
+    let x ← unhexStr x
+    match Copia.Quote.ansiC x.toList with
+    | some (d, r) => some s!"{hexStr (String.ofList d)} {hexStr (String.ofList r)}"
+    | none => some "NONE"
   | _ => none
 
 end Copia.Driver.C04
